@@ -85,7 +85,22 @@ pub fn response_fill_msg(rng: &mut Rng, m: &Model, target: usize) -> Option<Vec<
 
 /// byte stream of one of the classes of DESIGN 4.2
 pub fn any_stream(rng: &mut Rng, m: &Model, n: usize, max: usize) -> (Vec<u8>, &'static str) {
-    match rng.below(12) {
+    match rng.below(13) {
+        12 => {
+            // a long definite-length block (hundreds of bytes) and a long string
+            let mut s = Vec::new();
+            let head: &[u8] = if m.spelled.iter().any(|sp| sp.path == ["BLK"]) { b"BLK " } else { b"ZOO:BLK? " };
+            s.extend_from_slice(head);
+            let len = *rng.pick(&[200usize, 255, 256, 257, 300, 511, 512, 1000]);
+            let payload: Vec<u8> = (0..len).map(|_| *rng.pick(b"abcdefgh;,:# \n")).collect();
+            s.extend_from_slice(&gen::block(&payload, rng.below(3)));
+            s.push(b'\n');
+            if rng.chance(1, 2) {
+                let h = valid_history(rng, m, 1, 2, Payloads::Plain, false);
+                s.extend_from_slice(&render(&h).0);
+            }
+            (s, "long-block")
+        }
         11 => {
             // responses that fill the N byte response buffer exactly, or miss by one
             let target = (n as i64 + *rng.pick(&[0i64, 0, -1, 1])).max(1) as usize;
